@@ -29,8 +29,10 @@ INFO = dict(
               "order-0/1 constant/nearest samplers / set_patches over an executable flat-array model, every "
               "dimension and channel count) + SOURCE TRANSLATION: 20 functions of menpo/image/base.py, patches.py, "
               "masked.py, boolean.py and shape/pointcloud.py are translated from the source text of the working tree "
-              "into Lean on every run (harness/trans_c13.py over harness/py2lean2.py) and proved equal, for all "
-              "arguments, to the definitions the theorems are about + bit-exact model/implementation "
+              "into Lean on every run (harness/trans_c13.py over harness/py2lean2.py) and proved equal to their "
+              "hand-written mirrors for all arguments, the mirrors to the definitions the theorems are about on "
+              "well-formed data (pix.WF, a (C, H, W) pixel array, a documented offset spelling, patch lists of one "
+              "shape) + bit-exact model/implementation "
               "correspondence through the public entry points + entry-point table regenerated from the live "
               "classes + independent numpy-slicing oracle on the real image classes",
     level_text="Theorems over an executable model of Image.crop, crop_to_pointcloud / crop_to_landmarks (and their "
@@ -42,17 +44,24 @@ INFO = dict(
                "otherwise and never alters an in-bounds request (the `or` of the original tree is refuted by "
                "witness); the box a "
                "point set requests contains the pixel of every point except those on the whole-valued maximum "
-               "when boundary = 0; every extraction path returns (centres, offsets, C, ph, pw) for every C, order "
-               "and mode (the original reshape(3, ...) provably fails for every C != 3); order 1 is the bilinear "
+               "when boundary = 0; every extraction path returns (centres, offsets, C, ph, pw) for every C, order, "
+               "mode and centre, rounding ties included (slicing_patch_layout_all, extractPatches_shape_all - for the "
+               "slicing path as repaired by notes/fixes/C13-slice-rounding-tie.diff: the original tree rounded both "
+               "window corners half to even, so a half-integer centre + offset with an odd patch extent gave a window "
+               "one pixel short or long and a ValueError, refuted by witness sliceBoundsCoded_tie; away from ties the "
+               "two computations coincide, sliceBoundsCoded_eq); the original reshape(3, ...) provably fails for every "
+               "C != 3; order 1 is the bilinear "
                "formula and reproduces the samples, 'constant' fills outside, 'nearest' is sampling at the clamped "
                "location; at integer centres/offsets the slicing path and the sampling path of order 0 and 1 agree "
                "pixel for pixel, outside pixels are the fill value, and set_patches restores interior windows - "
-               "also through the public defaults and the list format.  For arbitrary centres the round trip is "
+               "also into an image whose windows were damaged (set_extract_restores_damaged: pix on the written windows, "
+               "the damaged image elsewhere; a set_patches that writes nothing does not satisfy it), "
+               "through the public defaults and the list format.  For arbitrary centres the round trip is "
                "characterised exactly for both placements (int() of the original tree: iff int() and np.round pick "
                "the same pixel; np.round of the repaired tree: everywhere away from ties).  "
                "TRANSLATED, not transcribed (Generated/C13Src.lean, rewritten from the source text on every run; "
                "GenProps/C13Src.lean: genF = Src.f; Lemmas/C13Src.lean: Src.f = Core definition): "
-               "Image.constrain_points_to_bounds, Image.crop (floor / ceil, both ValueErrors, the bounded copies, the "
+               "Image.constrain_points_to_bounds, Image.crop (floor / ceil, both ValueErrors, the clamped bounds, the "
                "raise-or-clip decision, what goes to warp_to_shape, the aliasing of `cropped` and `result`, the final "
                "block copy), PointCloud.bounds / range, crop_to_pointcloud, crop_to_landmarks, "
                "crop_to_pointcloud_proportion, crop_to_landmarks_proportion, BooleanImage.true_indices / bounds_true, "
@@ -69,8 +78,14 @@ INFO = dict(
                "nested loops with their running index).  The property theorems "
                "are restated about the translated definitions (gen_crop_spec, gen_crop_never_silently_altered, "
                "gen_crop_to_pointcloud_spec, gen_crop_to_true_mask_spec, gen_slicing_patch_layout, "
-               "gen_sampling_patch_layout, gen_extractPatches_shape, gen_slice_eq_sampling_at_integers, "
-               "gen_outside_is_fill, gen_set_extract_roundtrip, gen_landmarks_roundtrip_api).  "
+               "gen_slicing_patch_layout_all, gen_sampling_patch_layout, gen_extractPatches_shape, "
+               "gen_extractPatches_shape_all, gen_slice_eq_sampling_at_integers, gen_outside_is_fill, "
+               "gen_set_extract_roundtrip, gen_set_extract_restores_damaged, gen_landmarks_roundtrip_api).  "
+               "The translation has VALUE semantics: a callee never mutates an argument its caller reads again, "
+               "`.copy()` / `self.copy()` are the identity and `x += y` is a rebinding, so a dropped copy or an in-place "
+               "update of a caller-visible array gives the same translation; that nothing the caller sees is mutated "
+               "is decided by the oracle and the correspondence (a dropped `.copy()` in constrain_points_to_bounds is "
+               "caught by the oracle as a silently clipped crop), not by the translated obligations.  "
                "The model is also tied to /repo by running "
                "the real classes on generated cases (all image classes, 1-5 channels, 7 dtypes, 2-D/3-D crops, "
                "each side separately, wrappers with omitted arguments, images born from earlier crops / patch "
@@ -89,7 +104,13 @@ INFO = dict(
                "disagree; numpy basic slicing/broadcasting, np.round (half to even), np.clip, np.floor/ceil, "
                "np.min/max, reshape and transpose semantics are modelled (Core/C13NDArr.lean, Core/C13Crop.lean, "
                "Core/C13Api.lean, Core/C13Src.lean, Core/PyData.lean) and exercised by the correspondence, not "
-               "verified; Image.warp_to_shape with a Translation and order 0 is a vocabulary word (the index grid "
+               "verified; rules that drop arguments (dtype= of np.full / np.empty, pixels.dtype, np.require(.., "
+               "dtype=np.intp), np.require(.., requirements=['C'])): dtypes are outside the model, the dtype clause of "
+               "crop ('same dtype', bit for bit) is held by the oracle alone (same_bits + dtype check) - Img.assignAll "
+               "replaces the data wholesale whereas numpy casts into the dtype warp_to_shape(order=0) produced; the "
+               "`sampler` parameter of the translated sampling path is closed over `pixels` and `cval` (the rule pins "
+               "the literal argument names of scipy_interpolation); "
+               "Image.warp_to_shape with a Translation and order 0 is a vocabulary word (the index grid "
                "translated and sampled per channel, landmarks through the inverse translation), not translated; "
                "scipy.ndimage.map_coordinates is "
                "a contract parameter of the layout theorems; its order-0/1, constant/nearest behaviour is the model "
@@ -115,11 +136,24 @@ INFO = dict(
              "and constrain_points_to_bounds on a 2-D array of points (constrain_landmarks_to_bounds) are not "
              "modelled; return_transform=True is modelled as returning the same image (the transform object is not "
              "part of the model)",
-             "set_patches at fractional centres is outside the property's quantifier ('at integer centres and "
-             "offsets'); /repo rounds since fix 5b997e6 and the translated set_patches is proved equal to the "
-             "rounding placement (genSetPatches_model: an int() regression breaks that obligation); on fractional "
-             "cases the correspondence accepts either placement and records which one the tree has "
-             "(set_patches_placement_observed)"],
+             "set_patches at fractional centres away from ties IS judged (integrator's decision: 'writing extracted "
+             "interior patches back restores the image' is not restricted to whole-pixel centres): /repo rounds since fix "
+             "5b997e6, the translated set_patches is proved equal to the rounding placement (genSetPatches_model) and "
+             "the correspondence compares with that placement only; the theorems about the int() placement of the "
+             "original tree (set_extract_roundtrip_coded, set_extract_shifted, set_extract_not_restored) are kept as "
+             "its characterisation",
+             "F1 (audit): until notes/fixes/C13-slice-rounding-tie.diff is applied to /repo the check prints VIOLATION "
+             "(site C13/extract_patches.slicing.shape, pattern raises-at-rounding-tie) and the obligation "
+             "genExtractPatchesWithSlice_eq is broken: the model and the mirror follow the repaired code; which of "
+             "the two neighbouring pixels a rounding tie picks is not judged (compared with the model only)",
+             "oracle extensions that are not clauses of the property text are correspondence observations (broken "
+             "tie, directed search), not failures: dtype of extracted patches, class of the result, mask block of a "
+             "cropped MaskedImage, source / receiver left unmodified",
+             "float or fractional `offset` arrays of Image.set_patches are outside the model (OffArg holds integers); "
+             "extractSlice_spec / patches_at_integers read pixels through getD: on an ill-formed buffer (shorter than "
+             "its shape; excluded by pix.WF in every theorem that speaks of source pixels through get?) 'the source "
+             "pixel' would be the fill value; `sampleRat` is bilinear for every order >= 1: the theorems quantified "
+             "over `order` are about orders 0 and 1 of scipy"],
     assumptions=["inputs are small integers / dyadic rationals so float64 arithmetic in the implementation is exact",
                  "sampling-path cases avoid rounding ties of scipy (coordinate + 1/2 integral)",
                  "OpenCV is not installed in this environment, so warp_to_shape takes the scipy path"],
@@ -137,7 +171,8 @@ SRC_MODEL = ["genConstrainPointsToBounds", "genCrop", "genCropToPointcloud", "ge
 SRC_PROPS = ["gen_crop_spec", "gen_slicing_patch_layout", "gen_sampling_patch_layout",
              "gen_slice_eq_sampling_at_integers", "gen_outside_is_fill", "gen_set_extract_roundtrip",
              "gen_extractPatches_shape", "gen_landmarks_roundtrip_api", "gen_crop_never_silently_altered",
-             "gen_crop_to_pointcloud_spec", "gen_crop_to_true_mask_spec"]
+             "gen_crop_to_pointcloud_spec", "gen_crop_to_true_mask_spec", "gen_slicing_patch_layout_all",
+             "gen_extractPatches_shape_all", "gen_set_extract_restores_damaged"]
 SRC_THEOREMS = (["MenpoModel.C13.GenProps.%s_eq" % g for g in SRC_GEN]
                 + ["MenpoModel.C13.GenProps.%s_model" % g for g in SRC_MODEL]
                 + ["MenpoModel.C13.GenProps.%s" % g for g in SRC_PROPS])
@@ -153,6 +188,9 @@ THEOREMS = [
     "MenpoModel.C13.sampling_patch_layout",
     "MenpoModel.C13.sampling_coded_fails",
     "MenpoModel.C13.slicing_patch_layout",
+    "MenpoModel.C13.slicing_patch_layout_all",
+    "MenpoModel.C13.sliceBoundsCoded_eq",
+    "MenpoModel.C13.sliceBoundsCoded_tie",
     "MenpoModel.C13.axisPlan_spec",
     "MenpoModel.C13.patches_at_integers",
     "MenpoModel.C13.slice_eq_sampling_at_integers",
@@ -168,6 +206,8 @@ THEOREMS = [
     "MenpoModel.C13.set_extract_roundtrip_repaired",
     "MenpoModel.C13.set_extract_shifted",
     "MenpoModel.C13.set_extract_not_restored",
+    "MenpoModel.C13.setLoop_restores",
+    "MenpoModel.C13.set_extract_restores_damaged",
     # samplers (Lemmas/C13Sampler.lean)
     "MenpoModel.C13.sample1_bilinear",
     "MenpoModel.C13.bilinear_weights",
@@ -186,6 +226,7 @@ THEOREMS = [
     "MenpoModel.C13.cropToPointcloudProportion_eq",
     "MenpoModel.C13.extractPatches_dispatch",
     "MenpoModel.C13.extractPatches_shape",
+    "MenpoModel.C13.extractPatches_shape_all",
     "MenpoModel.C13.extractAroundLandmarks_eq",
     "MenpoModel.C13.extractPatches_orders_agree",
     "MenpoModel.C13.patch_list_roundtrip",
@@ -542,9 +583,9 @@ def run_crop_case(ctx, case, lines, cid):
                          "(shape %s, dtype %s)" % (lo, hi, spatial, out.pixels.shape, out.pixels.dtype, blo, bhi,
                                                    exp.shape, src.dtype), rp)
             if type(out) is not type(img):
-                failed = True
-                ctx.fail(site + ".class", "class-changed", "crop of %s returned %s" % (
-                    type(img).__name__, type(out).__name__), rp)
+                # not a clause of the property text: observation (broken tie -> directed search)
+                ctx.mismatch("crop-class", "crop of %s returned %s" % (type(img).__name__, type(out).__name__),
+                             dict(rp, op="crop-class"))
             if case.get("lms"):
                 want = np.array(case["lms"], dtype=float) - np.array(blo, dtype=float)
                 got = out.landmarks["g"].points if out.has_landmarks else None
@@ -556,11 +597,10 @@ def run_crop_case(ctx, case, lines, cid):
             if case["cls"] == "MaskedImage":
                 mexp = img.mask.pixels[(slice(None),) + tuple(slice(a, b) for a, b in zip(blo, bhi))]
                 if out.mask.pixels.shape != mexp.shape or not np.array_equal(out.mask.pixels, mexp):
-                    failed = True
-                    ctx.fail(site + ".mask", "mask-block-differs", "mask of the cropped image is not the mask block", rp)
+                    failed = True   # (skips the model lines of this case; the mask is compared there as well)
+                    ctx.mismatch("crop-mask", "mask of the cropped image is not the mask block", dict(rp, op="crop-mask"))
             if not same_bits(img.pixels, src):
-                failed = True
-                ctx.fail(site + ".source", "source-mutated", "crop modified the source image", rp)
+                ctx.mismatch("crop-source", "crop modified the source image", dict(rp, op="crop-source"))
             # observation (decision recorded in INFO['partial']): pixels of the points on the whole-valued maximum
             if how in ("pointcloud", "landmarks", "pointcloud_prop", "landmarks_prop") and inside:
                 cut = any(not (l <= math.floor(Fraction(p[k])) < h)
@@ -999,7 +1039,19 @@ def run_patch_case(ctx, case, lines, cid):
         ctx.count("patch-path:" + path)
         failed = False
         if tie:
-            pass   # correspondence only
+            # the shape clause has no tie exclusion (only the per-path reference comparison has): at a rounding tie
+            # the slicing paths must still return the (centres, offsets, C, ph, pw) array; WHICH of the two
+            # neighbouring pixels a tie picks is not judged (compared with the model only)
+            if err is not None:
+                failed = True
+                ctx.fail(site + ".shape", "raises-at-rounding-tie",
+                         "%s with centre + offset on a half-integer (%s, offsets %s), patch %dx%d raised %s: %s; it must "
+                         "return an array of shape %s" % (path, centres, offs_eff, ph, pw, type(err).__name__,
+                                                         str(err)[:120], want_shape), rp)
+            elif tuple(out.shape) != want_shape:
+                failed = True
+                ctx.fail(site + ".shape", "wrong-shape", "%s returned shape %s, required %s" % (
+                    path, tuple(out.shape), want_shape), rp)
         elif err is not None:
             failed = True
             ctx.fail(site + ".shape", "raises-%s-channels-%s" % (type(err).__name__, "3" if C == 3 else "not-3"),
@@ -1011,9 +1063,10 @@ def run_patch_case(ctx, case, lines, cid):
                 ctx.fail(site + ".shape", "wrong-shape", "%s returned shape %s, required %s" % (
                     path, tuple(out.shape), want_shape), rp)
             elif out.dtype != pix.dtype:
-                failed = True
-                ctx.fail(site + ".dtype", "dtype-changed", "%s returned dtype %s from %s pixels" % (
-                    path, out.dtype, pix.dtype), rp)
+                # the property text states the dtype for crop only: an observation, not a failure
+                failed = True      # (no model line: the model's replies are typed like the pixels)
+                ctx.mismatch("patch-dtype", "%s returned dtype %s from %s pixels" % (path, out.dtype, pix.dtype),
+                             dict(rp, op="patch-dtype"))
             elif path in ("api-slice", "fn-slice", "fn-sample0", "api-lms"):
                 rule = "slice" if integer else "either"
                 a, b = patch_reference(pix, centres, offs_eff, ph, pw, cval_path, rule)
@@ -1230,7 +1283,7 @@ def run_set_case(ctx, case, lines, cid):
     pc = PointCloud(np.array(centres, dtype=float).reshape(-1, 2))
     integer = all(float(x).is_integer() for c in centres for x in c)
     route = case.get("route", "centres")     # 'landmarks': the *_around_landmarks pair of entry points
-    # windows extraction reads (np.round) and set_patches writes (int()), by the oracle's own arithmetic
+    # windows extraction reads and set_patches writes (both np.round), by the oracle's own arithmetic
     xs = [(Fraction(c[0]) + off[0], Fraction(c[1]) + off[1]) for c in centres]
     ties = any(frac_part(x) == HALF for xy in xs for x in xy)
     rd = [((round_half_even(x) - ph // 2, round_half_even(x) - ph // 2 + ph),
@@ -1257,9 +1310,8 @@ def run_set_case(ctx, case, lines, cid):
     try:
         patches = extract(True)
     except Exception as e:
-        if not ties:
-            ctx.fail("C13/extract_patches.slicing.shape", "raises-" + type(e).__name__,
-                     "extraction before the round trip raised %s" % type(e).__name__, rp)
+        ctx.fail("C13/extract_patches.slicing.shape", "raises-at-rounding-tie" if ties else "raises-" + type(e).__name__,
+                 "extraction before the round trip raised %s" % type(e).__name__, rp)
         return obs
     # damage the windows (so that a set_patches that writes nothing, or elsewhere, is seen)
     damaged = img.copy()
@@ -1305,16 +1357,13 @@ def run_set_case(ctx, case, lines, cid):
                          "restore the image (%d pixels differ, first at %s)" % (
                              centres, off, len(bad), bad[0].tolist() if len(bad) else None), rp)
             if type(back) is not type(img):
-                failed = True
-                ctx.fail("C13/set_patches.class", "class-changed", "set_patches on %s returned %s" % (
-                    type(img).__name__, type(back).__name__), rp)
+                ctx.mismatch("set-class", "set_patches on %s returned %s" % (type(img).__name__, type(back).__name__),
+                             dict(rp, op="set-class"))
             if not np.array_equal(damaged.pixels, dam_px):
-                failed = True
-                ctx.fail("C13/set_patches.receiver", "receiver-mutated", "set_patches modified the image it was called on", rp)
+                ctx.mismatch("set-receiver", "set_patches modified the image it was called on", dict(rp, op="set-receiver"))
     elif not integer and not ties and err is None and back is not None:
-        # outside the property's quantifier (decision in INFO['partial']): counted, and the prediction of
-        # set_extract_roundtrip_coded (restored wherever int() and np.round agree and the windows are inside)
-        # is compared with the real code
+        # fractional centres away from ties (decision in INFO['partial']): judged - the windows extraction read must be
+        # the windows set_patches writes (both round); counted by whether int() would have agreed
         restored = bool(np.array_equal(back.pixels, pix))
         ctx.count("note:roundtrip-fractional-%s-%s" % ("agree" if agree else "disagree",
                                                        "restored" if restored else "not-restored"))
@@ -1326,23 +1375,15 @@ def run_set_case(ctx, case, lines, cid):
                      "patches extracted at interior sub-pixel centres %s (offset %s, away from rounding ties) and written "
                      "back do not restore the image: set_patches and extract_patches address different windows" % (
                          centres, off), rp)
-        elif agree and inside and not restored:
-            ctx.mismatch("set-roundtrip-prediction",
-                         "fractional centres %s (offset %s) on which int() and np.round agree: theorem "
-                         "set_extract_roundtrip_coded predicts a restored image, the implementation differs" % (
-                             centres, off), dict(rp, op="set-roundtrip-prediction"))
     if not failed:
         pat = ("L %d %s" % (len(arg), " ".join(arr_in(x.pixels) for x in arg))) if case.get("as_list") \
             else "A " + arr_in(patches)
         off_s = "%d %d" % (int(off[0]), int(off[1])) if "offset" in kw else "N"
         oi_s = "%d" % oi if "offset_index" in kw else "N"
-        lines.append("%s.set setapi c %s %s %s %s %s" % (cid, pat, arr_in(dam_px), pts_in(centres), off_s, oi_s))
+        # the model places patches as the tree does since fix 5b997e6 (np.round: variant `r`, the one the translated
+        # set_patches is proved equal to)
+        lines.append("%s.set setapi r %s %s %s %s %s" % (cid, pat, arr_in(dam_px), pts_in(centres), off_s, oi_s))
         obs[cid + ".set"] = ("err " + err_kind(err)) if err is not None else norm_reply("ok " + arr_out(back.pixels))
-        if not integer:
-            # fractional centres are outside the property's quantifier: the placement of the proposed repair
-            # (np.round, notes/fixes/C13-set-patches-rounding.diff) is accepted as well; which one the tree has is noted
-            lines.append("%s.setr setapi r %s %s %s %s %s" % (cid, pat, arr_in(dam_px), pts_in(centres), off_s, oi_s))
-            obs[cid + ".set"] = "?placement " + obs[cid + ".set"]
     return obs
 
 
@@ -1426,7 +1467,6 @@ def search(ctx):
 
 def compare(ctx, model, obs, cases):
     decisive = {"coded": 0, "repaired": 0, "neither": 0}
-    placement = {"int()": 0, "np.round": 0, "neither": 0}
     for key, impl in obs.items():
         cid = key.split(".")[0]
         kind, case = cases[cid]
@@ -1441,26 +1481,12 @@ def compare(ctx, model, obs, cases):
             if model.get(key, "").startswith("err"):
                 ctx.count("note:sampling-path-matches-coded-reshape")
             continue
-        if impl.startswith("?placement "):
-            impl = impl[len("?placement "):]
-            mc, mr = norm_reply(model.get(key, "<no reply>")), norm_reply(model.get(key + "r", "<no reply>"))
-            if mc != mr:
-                placement["int()" if impl == mc else "np.round" if impl == mr else "neither"] += 1
-            if impl not in (mc, mr):
-                ctx.mismatch("set", "model (int() placement) %r / (np.round placement) %r vs implementation %r" % (
-                    mc[:120], mr[:120], impl[:120]), {"kind": kind, "case": case, "op": key})
-            continue
         got = norm_reply(model.get(key, "<no reply>"))
         if got != impl:
             ctx.mismatch(key.split(".", 1)[1] if "." in key else key,
                          "model %r vs implementation %r" % (got[:160], impl[:160]),
                          {"kind": kind, "case": case, "op": key})
     ctx.notes["crop_decision_discriminating_cases"] = decisive
-    ctx.notes["set_patches_placement_discriminating_cases"] = placement
-    if placement["int()"] or placement["np.round"]:
-        ctx.notes["set_patches_placement_observed"] = (
-            "int() (as coded)" if not placement["np.round"] else
-            "np.round (repaired)" if not placement["int()"] else "mixed")
     if decisive["coded"] or decisive["repaired"]:
         ctx.notes["crop_decision_variant_observed"] = (
             "coded (or)" if decisive["coded"] and not decisive["repaired"] else
@@ -1493,7 +1519,7 @@ def generated(ctx):
     both = dict(extract_c13.lean_files())
     both.update(files)
     n_src = len(SRC_THEOREMS)
-    probe = types.SimpleNamespace(gen_obligations=0, broken_obligations=[])
+    probe = types.SimpleNamespace(gen_obligations=0, broken_obligations=[], notes=ctx.notes)
     ok_all = common.build_generated(probe, both, extract_c13.TARGETS + trans_c13.GEN_TARGETS, 0)
     if ok_all:
         ctx.gen_obligations += extract_c13.N_OBLIGATIONS + n_src
@@ -1535,7 +1561,9 @@ def run(ctx):
         "scipy.ndimage.map_coordinates: contract parameter of sampling_patch_layout; order-0 constant-mode model "
         "(outside iff a coordinate < 0 or > n-1, else floor(x + 1/2)) and order-1 model (multilinear, 'nearest' = "
         "clamp) checked against scipy on every run; the sampler theorems are about these models",
-        "inspect.signature / class MRO as read by harness/extract_c13.py (regenerated entry-point table)"])
+        "inspect.signature / class MRO as read by harness/extract_c13.py (regenerated entry-point table)",
+        "harness/py2lean2.py + harness/trans_c13.py (translator, its normalisations and inlining) and the rule table / "
+        "vocabulary Core/C13Src.lean part 1 (value semantics: `.copy()` is the identity, dtype arguments dropped)"])
     rng = ctx.rng
     n = ctx.n(2000, 24000)
     lines, obs, cases = [], {}, {}
